@@ -665,6 +665,12 @@ where
                         st.samples.push(j);
                     }
                 }
+                if crate::isolate::retire_requested() {
+                    // this case abandoned a runaway helper thread: persist the counts and let
+                    // the supervisor continue with a fresh process
+                    progress(&st);
+                    std::process::exit(crate::isolate::RETIRE_EXIT);
+                }
                 Ok(())
             }
             Err(f) if known_sigs.contains(&f.sig) => {
